@@ -701,6 +701,68 @@ valid_boundaries(void)
         }
 }
 
+/* misuse of the burst calls themselves (once per algorithm x variant: the following valid baseline job proves the manager was left intact) */
+static void
+burst_misuse(void)
+{
+        struct {
+                const char *name;
+                int expect; /* expected error code, -1 = any non-zero */
+        } cur;
+#define MIS(nm, exp_code, call, retval_ok)                                                         \
+        do {                                                                                       \
+                cur.name = nm;                                                                     \
+                cur.expect = exp_code;                                                             \
+                n_inj++;                                                                           \
+                uint32_t rv = (uint32_t) (call);                                                   \
+                int e = imb_get_errno(m);                                                          \
+                if (!(retval_ok) || e == 0 || (cur.expect >= 0 && e != cur.expect))                \
+                        viol("burst-misuse-not-refused", cur.name, "burst", "misused burst call not refused with the matching error code (x = retval*10000 + errno)", (long) rv * 10000 + e); \
+                if (X_QUEUE_SIZE(m) != 0)                                                          \
+                        viol("burst-partially-submitted", cur.name, "burst", "jobs were queued by a refused burst call", X_QUEUE_SIZE(m)); \
+                while (X_FLUSH(m))                                                                 \
+                        ;                                                                          \
+        } while (0)
+        IMB_JOB *jobs[IMB_MAX_BURST_SIZE + 2];
+        static IMB_JOB sj[4];
+        uint32_t nb = A->bitlen ? (base_len + 7) / 8 : base_len;
+        if (A->family == F_DOCSISCRC)
+                nb = base_len + 12;
+        MIS("get-next-burst-null-array", IMB_ERR_NULL_BURST, X_GET_NEXT_BURST(m, 2, NULL), rv == 0);
+        MIS("get-next-burst-too-many", IMB_ERR_BURST_SIZE, X_GET_NEXT_BURST(m, IMB_MAX_BURST_SIZE + 1, jobs), rv == 0);
+        MIS("submit-burst-null-array", IMB_ERR_NULL_BURST, X_SUBMIT_BURST(m, 2, NULL), rv == 0);
+        MIS("flush-burst-null-array", IMB_ERR_NULL_BURST, X_FLUSH_BURST(m, 2, NULL), rv == 0);
+        if (X_GET_NEXT_BURST(m, 3, jobs) == 3) {
+                for (int k = 0; k < 3; k++) {
+                        fill_bufs(k, nb);
+                        item_t bi;
+                        mkitem(&bi, k, base_len);
+                        alg_fill(m, jobs[k], &bi);
+                        imb_set_session(m, jobs[k]);
+                        snap(k, nb);
+                }
+                IMB_JOB *keep[3] = { jobs[0], jobs[1], jobs[2] };
+                MIS("submit-burst-too-many", IMB_ERR_BURST_SIZE, X_SUBMIT_BURST(m, IMB_MAX_BURST_SIZE + 1, jobs), rv == 0);
+                jobs[1] = NULL;
+                MIS("submit-burst-null-element", IMB_ERR_NULL_JOB, X_SUBMIT_BURST(m, 3, jobs), rv == 0);
+                jobs[1] = keep[2];
+                jobs[2] = keep[1];
+                MIS("submit-burst-out-of-order", IMB_ERR_BURST_OOO, X_SUBMIT_BURST(m, 3, jobs), rv == 0);
+                for (int k = 0; k < 3; k++)
+                        if (!unchanged(k, nb))
+                                viol("burst-touched-buffer", "submit-burst-misuse", "burst", "a buffer of a refused burst was modified (x = job index)", k);
+        }
+        /* synchronous bursts: NULL array; algorithm the call does not offer */
+        memset(sj, 0, sizeof sj);
+        MIS("cipher-burst-null-array", -1, IMB_SUBMIT_CIPHER_BURST(m, NULL, 2, IMB_CIPHER_CBC, IMB_DIR_ENCRYPT, IMB_KEY_128_BYTES), rv == 0);
+        MIS("hash-burst-null-array", -1, IMB_SUBMIT_HASH_BURST(m, NULL, 2, IMB_AUTH_HMAC_SHA_1), rv == 0);
+        MIS("aead-burst-null-array", -1, IMB_SUBMIT_AEAD_BURST(m, NULL, 2, IMB_CIPHER_CCM, IMB_DIR_ENCRYPT, IMB_KEY_128_BYTES), rv == 0);
+        MIS("cipher-burst-unsupported-mode", IMB_ERR_CIPH_MODE, IMB_SUBMIT_CIPHER_BURST(m, sj, 2, IMB_CIPHER_GCM, IMB_DIR_ENCRYPT, IMB_KEY_128_BYTES), rv == 0);
+        MIS("hash-burst-unsupported-alg", IMB_ERR_HASH_ALGO, IMB_SUBMIT_HASH_BURST(m, sj, 2, IMB_AUTH_AES_XCBC), rv == 0);
+        MIS("aead-burst-unsupported-mode", IMB_ERR_CIPH_MODE, IMB_SUBMIT_AEAD_BURST(m, sj, 2, IMB_CIPHER_CHACHA20_POLY1305, IMB_DIR_ENCRYPT, IMB_KEY_256_BYTES), rv == 0);
+        baseline_after("burst-misuse", "burst");
+}
+
 static int thorough;
 static void
 run_alg_variant(long item, void *arg)
@@ -747,6 +809,7 @@ run_alg_variant(long item, void *arg)
                         for (int b2 = a + 1; b2 < NMUT; b2++)
                                 if (MUTS[a].field != MUTS[b2].field)
                                         inject(&MUTS[a], 0, &MUTS[b2], 0);
+                burst_misuse();
                 valid_boundaries();
         }
         stat_add("evaluations", n_inj);
